@@ -252,10 +252,12 @@ def run_modcounter(case):
   S, M, T = F(start), F(mod), F(step)
   starts = [S + (F(i, 3) if vary and (mask & 1) else 0) for i in range(N)]
   steps = [T + (F(i % 4, 2) if vary and (mask & 4) else 0) for i in range(N)]
+  plain = (mask + MC_STEP.index(step)) % 2 == 1      # alternate exact class / plain int-Fraction arguments
+  conv = (lambda v: int(v) if F(v).denominator == 1 else F(v)) if plain else Q
   def arg(vals, isstream, const):
     if not isstream:
-      return Q(const)
-    return Stream([Q(v) for v in vals])
+      return conv(const)
+    return Stream([conv(v) for v in vals])
   a_start = arg(starts, mask & 1, S)
   a_mod = arg([M] * N, mask & 2, M)
   a_step = arg(steps, mask & 4, T)
@@ -273,6 +275,21 @@ def run_modcounter(case):
     acc += steps[n] if (mask & 4) else T
   if len(got) != N:
     return bad("modulo_counter:length", "counter ended early", N, len(got))
+  if plain:
+    # plain int / Fraction arguments meet the library's float constants (0., 256.) and decay to
+    # floats: the values are compared on the circle [0, modulo) with a float tolerance
+    def off(g, e):
+      d = abs(float(g) - float(e)) % float(M)
+      return min(d, float(M) - d)
+    badk = [i for i, (g, e) in enumerate(zip(got, exp)) if off(g, e) > 1e-9 * (1 + float(M))]
+    if badk:
+      k = badk[0]
+      return bad("modulo_counter:value", "output is not (start + sum of earlier steps) mod modulo "
+                 "(plain int/Fraction arguments, float tolerance)",
+                 {"n": k, "value": exp[k], "args": [start, mod, step], "streams": mask}, got[k])
+    if any(not (-1e-9 <= float(v) < float(M) + 1e-9) for v in got):
+      return bad("modulo_counter:range", "output outside [0, modulo)", None, got)
+    return R(None, True, (mask, "plain"))
   if exact_list(got) != exp:
     k = next(i for i, (g, e) in enumerate(zip(exact_list(got), exp)) if g != e)
     return bad("modulo_counter:value", "output is not (start + sum of earlier steps) mod modulo",
